@@ -124,6 +124,10 @@ fn flatten_company(f: &mut Field, c: &Case) {
     if k % 4 == 1 {
         f.decoys.push(Decoy::Alias);
     }
+    // a type override next to it must not make the check for flatten unreachable
+    if k % 5 == 2 {
+        f.serialized_as = Some(Ty::Map(Box::new(Ty::Prim(Prim::String)), Box::new(Ty::Prim(Prim::String))));
+    }
     // layout: bit 0 = one attribute per argument, bit 2 = reversed order
     f.layout = (k % 8) as u8;
 }
